@@ -6,6 +6,7 @@
   (midpoints, symmetric outer bins) is `Synphot.C18.edges_spec`.
 -/
 import Synphot.Lemmas.BinFlux
+import Synphot.Lemmas.C07x
 import Synphot.Props.C18
 
 set_option linter.unusedSectionVars false
@@ -268,5 +269,691 @@ theorem sample_binned_centre (atol rtol : K) (b : Bins K) (v : K) (hv : 0 < v)
     pure, Except.pure, List.zip_cons_cons, List.zip_nil_right, List.all_cons, List.all_nil, Bool.and_true,
     allcloseOne]
   simp [hnear]
+
+/-! ## deepened statements (helpers in `Lemmas/C07x.lean`) -/
+
+/-! ### (a) bin-edge geometry, any spacing -/
+
+/-- every centre lies strictly inside its bin (ascending centres) -/
+theorem centre_inside_bin (c e : List K) (hc : StrictAsc c) (he : binEdges c = .ok e) (i : Nat)
+    (hi : i < c.length) : e.getD i 0 < c.getD i 0 ∧ c.getD i 0 < e.getD (i + 1) 0 := by
+  obtain ⟨h2, hl, hmid, hfirst, hlast⟩ := edges_getD c e he
+  have hlt := strictAsc_getD_succ c hc
+  constructor
+  · rcases Nat.eq_zero_or_pos i with h0 | h0
+    · subst h0
+      have := hmid 0 (by omega); have := hlt 0 (by omega)
+      simp only [Nat.zero_add] at *
+      linarith
+    · obtain ⟨k, rfl⟩ : ∃ k, i = k + 1 := ⟨i - 1, by omega⟩
+      rw [hmid k hi]; have := hlt k hi; linarith
+  · by_cases h1 : i + 1 < c.length
+    · rw [hmid i h1]; have := hlt i h1; linarith
+    · have hi' : i + 1 = c.length := by omega
+      have hi'' : i = c.length - 1 := by omega
+      have hm := hmid (c.length - 2) (by omega)
+      have e1 : c.length - 2 + 1 = c.length - 1 := by omega
+      rw [e1] at hm
+      have := hlt (c.length - 2) (by omega)
+      rw [e1] at this
+      rw [hi', hi'']
+      linarith
+
+/-- … and for descending centres, between the (descending) edges -/
+theorem centre_inside_bin_desc (c e : List K) (hc : StrictDesc c) (he : binEdges c = .ok e) (i : Nat)
+    (hi : i < c.length) : e.getD (i + 1) 0 < c.getD i 0 ∧ c.getD i 0 < e.getD i 0 := by
+  obtain ⟨h2, hl, hmid, hfirst, hlast⟩ := edges_getD c e he
+  have hlt := strictDesc_getD_succ c hc
+  constructor
+  · by_cases h1 : i + 1 < c.length
+    · rw [hmid i h1]; have := hlt i h1; linarith
+    · have hi' : i + 1 = c.length := by omega
+      have hi'' : i = c.length - 1 := by omega
+      have hm := hmid (c.length - 2) (by omega)
+      have e1 : c.length - 2 + 1 = c.length - 1 := by omega
+      rw [e1] at hm
+      have := hlt (c.length - 2) (by omega)
+      rw [e1] at this
+      rw [hi', hi'']
+      linarith
+  · rcases Nat.eq_zero_or_pos i with h0 | h0
+    · subst h0
+      have := hmid 0 (by omega); have := hlt 0 (by omega)
+      simp only [Nat.zero_add] at *
+      linarith
+    · obtain ⟨k, rfl⟩ : ∃ k, i = k + 1 := ⟨i - 1, by omega⟩
+      rw [hmid k hi]; have := hlt k hi; linarith
+
+/-- **the bins of `calculate_bin_edges`, in one statement** (any spacing, either order): `n ≥ 2` valid
+centres give `n + 1` edges and `n` widths; every interior edge is the midpoint of its two neighbouring
+centres; the first and the last bin are symmetric about their centres; the edges are strictly monotone in
+the order of the centres; every width is positive and is the distance of the bin's two edges; the widths sum
+to the distance from the first to the last edge; every centre lies strictly inside its bin -/
+theorem bin_geometry (c e : List K) (h : calcBinEdges c = .ok e) :
+    ∃ w, binWidths e = .ok w ∧ 2 ≤ c.length ∧ e.length = c.length + 1 ∧ w.length = c.length ∧
+      (∀ i, i + 1 < c.length → e.getD (i + 1) 0 = (c.getD i 0 + c.getD (i + 1) 0) / 2) ∧
+      c.getD 0 0 - e.getD 0 0 = e.getD 1 0 - c.getD 0 0 ∧
+      e.getD c.length 0 - c.getD (c.length - 1) 0 = c.getD (c.length - 1) 0 - e.getD (c.length - 1) 0 ∧
+      ((StrictAsc c ∧ StrictAsc e) ∨ (StrictDesc c ∧ StrictDesc e)) ∧
+      (∀ x ∈ w, 0 < x) ∧ w.sum = |e.getLastD 0 - e.headD 0| ∧
+      ∀ i, i < c.length →
+        w.getD i 0 = |e.getD (i + 1) 0 - e.getD i 0| ∧
+        min (e.getD i 0) (e.getD (i + 1) 0) < c.getD i 0 ∧ c.getD i 0 < max (e.getD i 0) (e.getD (i + 1) 0) := by
+  obtain ⟨h2, hv, he⟩ := calcBinEdges_inv c e h
+  obtain ⟨_, hl, hmid, hfirst, hlast⟩ := edges_getD c e he
+  obtain ⟨w, hw, hwl⟩ := C18.widths_of_edges_ok c e he
+  obtain ⟨_, hmon⟩ := (validate_ok_iff c).mp hv
+  have hw' : w = absDiffs e := by
+    unfold binWidths at hw; split_ifs at hw; injection hw with hw; exact hw.symm
+  refine ⟨w, hw, h2, hl, hwl, hmid, hfirst, hlast, ?_, C18.widths_pos c e w hmon he hw,
+    C18.widths_sum c e w hmon he hw, ?_⟩
+  · rcases hmon with hA | hD
+    · exact Or.inl ⟨hA, binEdges_strictAsc c e hA he⟩
+    · exact Or.inr ⟨hD, binEdges_strictDesc c e hD he⟩
+  · intro i hi
+    refine ⟨by rw [hw', absDiffs_eq_adjMap, adjMap_getD _ e i (by omega)], ?_⟩
+    rcases hmon with hA | hD
+    · obtain ⟨h1, h2'⟩ := centre_inside_bin c e hA he i hi
+      exact ⟨lt_of_le_of_lt (min_le_left _ _) h1, lt_of_lt_of_le h2' (le_max_right _ _)⟩
+    · obtain ⟨h1, h2'⟩ := centre_inside_bin_desc c e hD he i hi
+      exact ⟨lt_of_le_of_lt (min_le_right _ _) h1, lt_of_lt_of_le h2' (le_max_left _ _)⟩
+
+/-! ### (b) the order of the centres -/
+
+/-- the edges of the reversed centres are the reversed edges: descending centres describe the same bins as
+the ascending ones -/
+theorem edges_of_reversed_centres (c : List K) :
+    calcBinEdges c.reverse = (calcBinEdges c).map List.reverse := by
+  unfold calcBinEdges
+  rw [List.length_reverse, validate_reverse, binEdges_reverse]
+  split_ifs
+  · rfl
+  · cases validateWavelengths c <;> rfl
+
+/-- whatever order the (valid) bin centres are given in, the constructor works on the strictly ascending
+arrangement: `binset` is the input or its reversal, is strictly ascending, and `bin_edges` are its
+(strictly ascending) midpoint edges -/
+theorem constructor_orders_centres (E : Env K) (thr : K) (m : Tree K) (bs : List K) (useC : Bool) (b : Bins K)
+    (hv : validateWavelengths bs = .ok ()) (h : initBins E thr m bs useC = .ok b) :
+    (b.binset = bs ∨ b.binset = bs.reverse) ∧ StrictAsc b.binset ∧ binEdges b.binset = .ok b.edges ∧
+      StrictAsc b.edges ∧ b.binflux.length = b.binset.length := by
+  rw [initBins_eq] at h
+  obtain ⟨edges, w, flux, r, he, hw, hf, hcall, rfl⟩ := initBinsFrom_inv E thr m _ useC b h
+  obtain ⟨hA, hor, _, _⟩ := ascOrder_valid bs hv
+  obtain ⟨e, rs, hrs, rfl⟩ := callBin_ok _ _ _ _ _ _ hcall
+  refine ⟨hor, hA, he, binEdges_strictAsc _ _ hA he, ?_⟩
+  have := mapM_ok_length _ _ _ hrs
+  have hl := C18.edges_length _ _ he
+  simp only [List.length_map, this, List.length_zip, List.length_dropLast, List.length_drop, hl]
+  omega
+
+/-- descending centres give exactly the bins of the reversed (ascending) ones -/
+theorem constructor_order_irrelevant (E : Env K) (thr : K) (m : Tree K) (bs : List K) (useC : Bool)
+    (hv : validateWavelengths bs = .ok ()) :
+    initBins E thr m bs.reverse useC = initBins E thr m bs useC := by
+  rw [initBins_eq, initBins_eq, (ascOrder_valid bs hv).2.2.2]
+
+/-- … for the whole observation -/
+theorem observation_order_irrelevant (E : Env K) (P : OverlapPar K) (src band : Spec K) (bs : List K)
+    (force : Force) (useC : Bool) :
+    mkObs E P src band (some bs.reverse) force useC = mkObs E P src band (some bs) force useC := by
+  unfold mkObs
+  simp only [validate_reverse]
+  cases hv : validateWavelengths bs with
+  | error e => simp only [bind, Except.bind]
+  | ok u => simp only [bind, Except.bind, pure, Except.pure, constructor_order_irrelevant _ _ _ bs _ hv]
+
+/-- every observation the constructor returns carries the bins `_init_bins` computed from a valid
+set of centres (the caller's, or the default binset) -/
+theorem observation_bins (E : Env K) (P : OverlapPar K) (src band : Spec K) (binset : Option (List K))
+    (force : Force) (useC : Bool) (o : Obs K) (h : mkObs E P src band binset force useC = .ok o) :
+    ∃ bs, validateWavelengths bs = .ok () ∧ (binset = some bs ∨ binset = none) ∧
+      initBins E P.mergeThr o.model bs useC = .ok o.bins :=
+  mkObs_inv E P src band binset force useC o h
+
+
+/-! ### (c) conservation for the bins the constructor builds -/
+
+/-- **flux conservation, as one statement**: for the bins `_init_bins` builds from any valid centres,
+`Σ binflux_i × (integrated width of bin i)` is the trapezoid integral of the unbinned samples over the points
+of the merged grid from the grid index of the first edge to that of the last edge.  (The integrated width
+is what the integrator returns as `intwave`; it is the bin width whenever the edges are grid points —
+`conservation_between_edges`.) -/
+theorem conservation_constructed (E : Env K) (thr : K) (m : Tree K) (bs : List K) (useC : Bool) (b : Bins K)
+    (hv : validateWavelengths bs = .ok ()) (h : initBins E thr m bs useC = .ok b) :
+    (mulFactors b.binflux ((b.ibeg.zip b.iend).map fun p => segWidth (pairDiffs b.spwave) p.1 p.2)).sum =
+      trapzXY
+        (gridSlice b.spwave (searchLeft b.spwave (b.edges.headD 0)) (searchLeft b.spwave (b.edges.getLastD 0)))
+        (gridSlice b.flux (searchLeft b.spwave (b.edges.headD 0)) (searchLeft b.spwave (b.edges.getLastD 0))) := by
+  rw [initBins_eq] at h
+  obtain ⟨edges, w, flux, r, he, hw, hf, hcall, rfl⟩ := initBinsFrom_inv E thr m _ useC b h
+  obtain ⟨hA, _, _, _⟩ := ascOrder_valid bs hv
+  obtain ⟨e, rs, hrs, rfl⟩ := callBin_ok _ _ _ _ _ _ hcall
+  simp only
+  have hfl : flux.length = (mergedGrid thr edges (ascOrder bs) w).length := mapM_ok_length _ _ _ hf
+  have hes := binEdges_strictAsc _ _ hA he
+  have hlen : (pairSums flux).length = (pairDiffs (mergedGrid thr edges (ascOrder bs) w)).length := by
+    rw [pairSums_eq_adjMap, pairDiffs_eq_adjMap, adjMap_length, adjMap_length, hfl]
+  rw [zip_dropLast_tail] at hrs ⊢
+  rw [← mapM_binOne_snd _ _ _ _ _ hrs, mulFactors_map_fst_snd, binned_sum _ _ _ _ _ hrs]
+  have hel := C18.edges_length _ _ he
+  have h2 := (C18.edges_ok_iff _).mp ⟨edges, he⟩
+  rcases edges with _ | ⟨e0, et⟩
+  · simp at hel
+  · have hchain := map_searchLeft_chain (mergedGrid thr (e0 :: et) (ascOrder bs) w) (e0 :: et) hes
+    simp only [List.map_cons, List.drop_succ_cons, List.drop_zero] at hchain ⊢
+    rw [contiguous_bins_tile _ _ hlen _ _ hchain, segFlux_eq_trapz _ _ hfl.symm]
+    have hlast := getLast_cons_map (searchLeft (mergedGrid thr (e0 :: et) (ascOrder bs) w)) et e0
+    rw [hlast]
+    rfl
+
+/-- when every bin edge is a point of the merged grid (it is positive and survives the 1e-12
+de-duplication) the integrated widths are the bin widths, and the integral runs over the grid points from
+the first edge to the last edge: **Σ binflux × bin width = ∫ observation between the outer edges** -/
+theorem conservation_between_edges (E : Env K) (thr : K) (m : Tree K) (bs : List K) (useC : Bool) (b : Bins K)
+    (hv : validateWavelengths bs = .ok ()) (h : initBins E thr m bs useC = .ok b)
+    (hedge : ∀ e ∈ b.edges, e ∈ b.spwave) (bw : List K) (hbw : binWidths b.edges = .ok bw) :
+    ∃ xs ys, xs = gridSlice b.spwave (searchLeft b.spwave (b.edges.headD 0)) (searchLeft b.spwave (b.edges.getLastD 0)) ∧
+      ys = gridSlice b.flux (searchLeft b.spwave (b.edges.headD 0)) (searchLeft b.spwave (b.edges.getLastD 0)) ∧
+      (mulFactors b.binflux bw).sum = trapzXY xs ys ∧
+      xs.length = ys.length ∧ xs.head? = b.edges.head? ∧ xs.getLast? = b.edges.getLast? := by
+  have hcons := conservation_constructed E thr m bs useC b hv h
+  refine ⟨_, _, rfl, rfl, ?_, ?_, ?_, ?_⟩
+  · rw [← hcons]
+    rw [initBins_eq] at h
+    obtain ⟨edges, w, flux, r, he, hw, hf, hcall, rfl⟩ := initBinsFrom_inv E thr m _ useC b h
+    obtain ⟨hA, _, _, _⟩ := ascOrder_valid bs hv
+    simp only at hedge hbw ⊢
+    have hes := binEdges_strictAsc _ _ hA he
+    rw [zip_dropLast_tail, widths_eq_absDiffs _ (mergedGrid_strictAsc _ _ _ _) edges hes hedge]
+    unfold binWidths at hbw
+    split_ifs at hbw
+    injection hbw with hbw
+    rw [hbw]
+  · rw [initBins_eq] at h
+    obtain ⟨edges, w, flux, r, he, hw, hf, hcall, rfl⟩ := initBinsFrom_inv E thr m _ useC b h
+    exact gridSlice_length_eq _ _ (mapM_ok_length _ _ _ hf).symm _ _
+  · rw [initBins_eq] at h
+    obtain ⟨edges, w, flux, r, he, hw, hf, hcall, rfl⟩ := initBinsFrom_inv E thr m _ useC b h
+    simp only at hedge ⊢
+    have hel := C18.edges_length _ _ he
+    rcases edges with _ | ⟨e0, et⟩
+    · simp at hel
+    · obtain ⟨h1, h2⟩ := searchLeft_mem _ (mergedGrid_strictAsc thr (e0 :: et) (ascOrder bs) w) e0
+        (hedge e0 (by simp))
+      rw [List.headD_cons, gridSlice_head? _ _ _ h1, h2]; rfl
+  · rw [initBins_eq] at h
+    obtain ⟨edges, w, flux, r, he, hw, hf, hcall, rfl⟩ := initBinsFrom_inv E thr m _ useC b h
+    obtain ⟨hA, _, _, _⟩ := ascOrder_valid bs hv
+    simp only at hedge ⊢
+    have hes := binEdges_strictAsc _ _ hA he
+    have hel := C18.edges_length _ _ he
+    rcases edges with _ | ⟨e0, et⟩
+    · simp at hel
+    · have hsp := mergedGrid_strictAsc thr (e0 :: et) (ascOrder bs) w
+      have hlm : (e0 :: et).getLastD 0 ∈ (e0 :: et) := by
+        rw [List.getLastD_eq_getLast?, List.getLast?_eq_some_getLast (List.cons_ne_nil e0 et)]
+        exact List.getLast_mem _
+      obtain ⟨h1, h2⟩ := searchLeft_mem _ hsp _ (hedge _ hlm)
+      have hle : searchLeft (mergedGrid thr (e0 :: et) (ascOrder bs) w) ((e0 :: et).headD 0) ≤
+          searchLeft (mergedGrid thr (e0 :: et) (ascOrder bs) w) ((e0 :: et).getLastD 0) := by
+        apply searchLeft_mono
+        rw [List.headD_cons, List.getLastD_cons]
+        exact strictAsc_head_le_last et e0 hes
+      rw [gridSlice_getLast? _ _ _ hle h1, h2, List.getLastD_eq_getLast?,
+        List.getLast?_eq_some_getLast (List.cons_ne_nil e0 et)]
+      rfl
+
+/-- the same for an observation as the constructor returns it -/
+theorem observation_conserves_flux (E : Env K) (P : OverlapPar K) (src band : Spec K)
+    (binset : Option (List K)) (force : Force) (useC : Bool) (o : Obs K)
+    (h : mkObs E P src band binset force useC = .ok o)
+    (hedge : ∀ e ∈ o.bins.edges, e ∈ o.bins.spwave) (bw : List K) (hbw : binWidths o.bins.edges = .ok bw) :
+    ∃ xs ys, xs = gridSlice o.bins.spwave (searchLeft o.bins.spwave (o.bins.edges.headD 0))
+          (searchLeft o.bins.spwave (o.bins.edges.getLastD 0)) ∧
+      ys = gridSlice o.bins.flux (searchLeft o.bins.spwave (o.bins.edges.headD 0))
+          (searchLeft o.bins.spwave (o.bins.edges.getLastD 0)) ∧
+      (mulFactors o.bins.binflux bw).sum = trapzXY xs ys ∧
+      xs.length = ys.length ∧ xs.head? = o.bins.edges.head? ∧ xs.getLast? = o.bins.edges.getLast? ∧
+      sampleTree E o.model o.bins.spwave = .ok o.bins.flux := by
+  obtain ⟨bs, hv, _, hi⟩ := mkObs_inv E P src band binset force useC o h
+  obtain ⟨xs, ys, hx, hy, h1, h2, h3, h4⟩ := conservation_between_edges E P.mergeThr o.model bs useC o.bins hv hi hedge bw hbw
+  refine ⟨xs, ys, hx, hy, h1, h2, h3, h4, ?_⟩
+  rw [initBins_eq] at hi
+  obtain ⟨edges, w, flux, r, he, hw, hf, hcall, hb⟩ := initBinsFrom_inv E P.mergeThr o.model _ useC o.bins hi
+  rw [hb]; exact hf
+
+/-- each binned flux of a constructed observation is the width-weighted mean of the unbinned samples on the
+grid points of its bin, hence lies between the smallest and the largest of them -/
+theorem binflux_between_constructed (E : Env K) (thr : K) (m : Tree K) (bs : List K) (useC : Bool) (b : Bins K)
+    (hv : validateWavelengths bs = .ok ()) (h : initBins E thr m bs useC = .ok b) (k : Nat)
+    (hk : k < b.binflux.length) (mn mx : K)
+    (hb : ∀ v ∈ gridSlice b.flux (b.ibeg.getD k 0) (b.iend.getD k 0), mn ≤ v ∧ v ≤ mx) :
+    mn ≤ b.binflux.getD k 0 ∧ b.binflux.getD k 0 ≤ mx ∧
+      b.binflux.getD k 0 * segWidth (pairDiffs b.spwave) (b.ibeg.getD k 0) (b.iend.getD k 0) =
+        trapzXY (gridSlice b.spwave (b.ibeg.getD k 0) (b.iend.getD k 0))
+          (gridSlice b.flux (b.ibeg.getD k 0) (b.iend.getD k 0)) := by
+  rw [initBins_eq] at h
+  obtain ⟨edges, w, flux, r, he, hw, hf, hcall, rfl⟩ := initBinsFrom_inv E thr m _ useC b h
+  obtain ⟨e, rs, hrs, rfl⟩ := callBin_ok _ _ _ _ _ _ hcall
+  simp only at hk hb ⊢
+  have hfl : flux.length = (mergedGrid thr edges (ascOrder bs) w).length := mapM_ok_length _ _ _ hf
+  have hlen : (pairSums flux).length = (pairDiffs (mergedGrid thr edges (ascOrder bs) w)).length := by
+    rw [pairSums_eq_adjMap, pairDiffs_eq_adjMap, adjMap_length, adjMap_length, hfl]
+  have hrl := mapM_ok_length _ _ _ hrs
+  have hk' : k < rs.length := by simpa using hk
+  have hkz : k < ((edges.map (searchLeft (mergedGrid thr edges (ascOrder bs) w))).dropLast.zip
+      ((edges.map (searchLeft (mergedGrid thr edges (ascOrder bs) w))).drop 1)).length := by omega
+  have hone := mapM_ok_getD _ _ _ hrs k hkz (0, 0) (0, 0)
+  rw [List.length_zip] at hkz
+  rw [zip_getD _ _ k (by omega) (by omega)] at hone
+  have hbf : (rs.map Prod.fst).getD k 0 = (rs.getD k (0, 0)).1 := by
+    rw [List.getD_eq_getElem?_getD, List.getD_eq_getElem?_getD, List.getElem?_map,
+      List.getElem?_eq_getElem hk']
+    rfl
+  rw [hbf]
+  set p : Nat × Nat := ((edges.map (searchLeft (mergedGrid thr edges (ascOrder bs) w))).dropLast.getD k 0,
+    ((edges.map (searchLeft (mergedGrid thr edges (ascOrder bs) w))).drop 1).getD k 0) with hp
+  rcases hr : rs.getD k (0, 0) with ⟨bk, wk⟩
+  rw [hr] at hone
+  have hbounds := binflux_between_min_max e _ _ p bk wk mn mx hone hlen
+    (fun d hd => le_of_lt (pairDiffs_pos _ (mergedGrid_strictAsc _ _ _ _) d
+      (List.mem_of_mem_drop (List.mem_of_mem_take hd))))
+    (fun a ha => by
+      have : (List.take (p.2 - p.1) (List.drop p.1 (pairSums flux))) = pairSums (gridSlice flux p.1 p.2) := by
+        rw [pairSums_eq_adjMap, pairSums_eq_adjMap, adjMap_gridSlice]
+      rw [this] at ha
+      exact pairSums_between mn mx _ hb a ha)
+  obtain ⟨h1, h2⟩ := bin_flux_times_width e _ _ p bk wk hone
+  refine ⟨hbounds.1, hbounds.2, ?_⟩
+  show bk * _ = _
+  rw [← h2, h1, segFlux_eq_trapz _ _ hfl.symm]
+
+
+/-! ### (d) the two integrators on the calls the constructor makes -/
+
+/-- **identical arrays on every consistent set of bin indices over positive-width segments**: both
+implementations return, return the same pair of arrays, one entry per bin (`impls_agree` says they agree
+whenever either returns; this says that on a consistent call both do) -/
+theorem consistent_call_identical (ibeg iend : List Nat) (avflux deltaw : List K)
+    (hc : ConsistentCall ibeg iend avflux deltaw) :
+    ∃ r, calcbinfluxC ibeg iend avflux deltaw = .ok r ∧ calcbinfluxPy ibeg iend avflux deltaw = .ok r ∧
+      r.1.length = ibeg.length ∧ r.2.length = ibeg.length :=
+  consistent_both_ok ibeg iend avflux deltaw hc
+
+/-- the call the constructor makes is such a consistent call whenever the bin edges are points of the
+merged grid: index lists of equal length, `ibeg[i] < iend[i] ≤ len(deltaw)`, one averaged flux per
+segment, all segments of positive width -/
+theorem constructor_call_consistent (E : Env K) (thr : K) (m : Tree K) (bs : List K) (useC : Bool) (b : Bins K)
+    (hv : validateWavelengths bs = .ok ()) (h : initBins E thr m bs useC = .ok b)
+    (hedge : ∀ e ∈ b.edges, e ∈ b.spwave) :
+    ConsistentCall b.ibeg b.iend (pairSums b.flux) (pairDiffs b.spwave) := by
+  rw [initBins_eq] at h
+  obtain ⟨edges, w, flux, r, he, hw, hf, hcall, rfl⟩ := initBinsFrom_inv E thr m _ useC b h
+  obtain ⟨hA, _, _, _⟩ := ascOrder_valid bs hv
+  exact constructed_call_consistent _ flux edges (mergedGrid_strictAsc _ _ _ _)
+    (binEdges_strictAsc _ _ hA he) hedge (mapM_ok_length _ _ _ hf)
+
+/-- without any hypothesis on the grid: the constructor's index lists are contiguous and ordered
+(`iend[i] = ibeg[i+1]`, `ibeg[i] ≤ iend[i]`), there is one averaged flux per segment and every segment has
+positive width -/
+theorem constructor_indices (E : Env K) (thr : K) (m : Tree K) (bs : List K) (useC : Bool) (b : Bins K)
+    (hv : validateWavelengths bs = .ok ()) (h : initBins E thr m bs useC = .ok b) :
+    ∃ idx : List Nat, idx = b.edges.map (searchLeft b.spwave) ∧ b.ibeg = idx.dropLast ∧ b.iend = idx.drop 1 ∧
+      idx.IsChain (· ≤ ·) ∧ (pairSums b.flux).length = (pairDiffs b.spwave).length ∧
+      (∀ d ∈ pairDiffs b.spwave, 0 < d) ∧ StrictAsc b.spwave ∧ (∀ x ∈ b.spwave, 0 < x) ∧
+      b.flux.length = b.spwave.length := by
+  rw [initBins_eq] at h
+  obtain ⟨edges, w, flux, r, he, hw, hf, hcall, rfl⟩ := initBinsFrom_inv E thr m _ useC b h
+  obtain ⟨hA, _, _, _⟩ := ascOrder_valid bs hv
+  have hfl : flux.length = (mergedGrid thr edges (ascOrder bs) w).length := mapM_ok_length _ _ _ hf
+  refine ⟨_, rfl, rfl, rfl, map_searchLeft_chain _ _ (binEdges_strictAsc _ _ hA he), ?_,
+    pairDiffs_pos _ (mergedGrid_strictAsc _ _ _ _), mergedGrid_strictAsc _ _ _ _, mergedGrid_pos _ _ _ _, hfl⟩
+  simp only
+  rw [pairSums_eq_adjMap, pairDiffs_eq_adjMap, adjMap_length, adjMap_length, hfl]
+
+/-- **agreement holds unconditionally for constructed observations**: `_init_bins` returns bins with the
+compiled integrator exactly when it does with the Python fallback, and then the same bins -/
+theorem constructor_impls_agree (E : Env K) (thr : K) (m : Tree K) (bs : List K) (b : Bins K) :
+    initBins E thr m bs true = .ok b ↔ initBins E thr m bs false = .ok b := by
+  have key : ∀ u1 u2 : Bool, initBins E thr m bs u1 = .ok b → initBins E thr m bs u2 = .ok b := by
+    intro u1 u2 h
+    rw [initBins_eq] at h ⊢
+    obtain ⟨edges, w, flux, r, he, hw, hf, hcall, rfl⟩ := initBinsFrom_inv E thr m _ u1 b h
+    refine initBinsFrom_of_pieces E thr m _ u2 edges w flux r he hw hf ?_
+    unfold callBin at hcall ⊢
+    cases u1 <;> cases u2 <;> simp only [if_true, if_false, Bool.false_eq_true] at hcall ⊢
+    · exact hcall
+    · exact (impls_agree _ _ _ _ r).mpr hcall
+    · exact (impls_agree _ _ _ _ r).mp hcall
+    · exact hcall
+  exact ⟨key true false, key false true⟩
+
+/-- … for the whole observation -/
+theorem observation_impls_agree (E : Env K) (P : OverlapPar K) (src band : Spec K)
+    (binset : Option (List K)) (force : Force) (o : Obs K) :
+    mkObs E P src band binset force true = .ok o ↔ mkObs E P src band binset force false = .ok o :=
+  ⟨mkObs_congr_initBins E P src band binset force true false
+      (fun model bs b => (constructor_impls_agree E P.mergeThr model bs b).mp) o,
+    mkObs_congr_initBins E P src band binset force false true
+      (fun model bs b => (constructor_impls_agree E P.mergeThr model bs b).mpr) o⟩
+
+/-- and when the edges are points of the merged grid the constructor does return, with either integrator,
+the same bins (neither a `ZeroDivisionError` nor a NaN) -/
+theorem constructor_returns (E : Env K) (thr : K) (m : Tree K) (bs : List K)
+    (hv : validateWavelengths bs = .ok ()) (w : Option (List K)) (hw : m.waveset thr = .ok w)
+    (heval : ∀ x, 0 < x → ∃ y, m.eval E x = .ok y) (edges : List K) (he : binEdges (ascOrder bs) = .ok edges)
+    (hedge : ∀ e ∈ edges, e ∈ mergedGrid thr edges (ascOrder bs) w) :
+    ∃ b, initBins E thr m bs true = .ok b ∧ initBins E thr m bs false = .ok b ∧ b.binset = ascOrder bs ∧
+      b.edges = edges ∧ b.spwave = mergedGrid thr edges (ascOrder bs) w ∧
+      sampleTree E m b.spwave = .ok b.flux :=
+  initBins_succeeds E thr m bs hv w hw heval edges he hedge
+
+/-- the grid the constructor integrates on: strictly ascending positive wavelengths, each of them a bin edge,
+a bin centre or a native sampling point of the observation (the merge of the three arrays; with a
+non-positive de-duplication threshold every positive edge is on it), and `flux` is the observation sampled
+there -/
+theorem constructor_grid (E : Env K) (thr : K) (m : Tree K) (bs : List K) (useC : Bool) (b : Bins K)
+    (h : initBins E thr m bs useC = .ok b) :
+    StrictAsc b.spwave ∧ sampleTree E m b.spwave = .ok b.flux ∧
+      (∀ x ∈ b.spwave, 0 < x ∧ (x ∈ b.edges ∨ x ∈ b.binset ∨ ∃ w, m.waveset thr = .ok (some w) ∧ x ∈ w)) ∧
+      (thr ≤ 0 → ∀ e ∈ b.edges, 0 < e → e ∈ b.spwave) := by
+  rw [initBins_eq] at h
+  obtain ⟨edges, w, flux, r, he, hw, hf, hcall, rfl⟩ := initBinsFrom_inv E thr m _ useC b h
+  refine ⟨mergedGrid_strictAsc _ _ _ _, hf, ?_, ?_⟩
+  · intro x hx
+    refine ⟨mergedGrid_pos _ _ _ _ x hx, ?_⟩
+    rcases mergedGrid_mem thr edges _ w x hx with h1 | h1 | ⟨w', rfl, h1⟩
+    · exact Or.inl h1
+    · exact Or.inr (Or.inl h1)
+    · exact Or.inr (Or.inr ⟨w', hw, h1⟩)
+  · intro hthr e he' hpos
+    exact mergedGrid_mem_of_thr thr hthr edges _ w e he' hpos
+
+/-! ### (e) binned sampling -/
+
+/-- **`sample_binned` in one statement**: on valid wavelengths it returns the binned flux of the compared bin
+for every wavelength exactly when each of them is within the `allclose` tolerance of the bin centre it is
+compared with (`binset[min(searchsorted(binset, v), n − 1)]`), and raises `InterpolationNotAllowed`
+otherwise — nothing else can happen -/
+theorem sample_binned_spec (atol rtol : K) (b : Bins K) (hne : b.binset ≠ [])
+    (hlen : b.binflux.length = b.binset.length) (x : List K) (hv : validateWavelengths x = .ok ()) :
+    sampleBinned atol rtol b x =
+      if ∀ v ∈ x, |b.binset.getD (clipIdx b.binset v) 0 - v| ≤ atol + rtol * |v|
+      then .ok (x.map fun v => b.binflux.getD (clipIdx b.binset v) 0)
+      else .error .interpolationNotAllowed :=
+  sampleBinned_spec atol rtol b hne hlen x hv
+
+/-- one wavelength: the bin's flux is returned **iff** the wavelength is within tolerance of the compared
+centre … -/
+theorem sample_binned_one_iff (atol rtol : K) (b : Bins K) (hne : b.binset ≠ [])
+    (hlen : b.binflux.length = b.binset.length) (v : K) (hv : 0 < v) (f : K) :
+    sampleBinned atol rtol b [v] = .ok [f] ↔
+      (|b.binset.getD (clipIdx b.binset v) 0 - v| ≤ atol + rtol * |v| ∧
+        f = b.binflux.getD (clipIdx b.binset v) 0) := by
+  have hval : validateWavelengths [v] = .ok () := by
+    rw [validate_ok_iff]; exact ⟨by simpa using hv, Or.inl trivial⟩
+  rw [sampleBinned_spec atol rtol b hne hlen [v] hval]
+  by_cases hc : |b.binset.getD (clipIdx b.binset v) 0 - v| ≤ atol + rtol * |v|
+  · rw [if_pos (by simpa using hc)]
+    constructor
+    · intro h; injection h with h; simp only [List.map_cons, List.map_nil, List.cons.injEq, and_true] at h
+      exact ⟨hc, h.symm⟩
+    · rintro ⟨_, rfl⟩; rfl
+  · rw [if_neg (by simpa using hc)]
+    constructor
+    · intro h; cases h
+    · rintro ⟨h, _⟩; exact absurd h hc
+
+/-- … and it is refused, with `InterpolationNotAllowed`, **iff** it is not -/
+theorem sample_binned_refused_iff (atol rtol : K) (b : Bins K) (hne : b.binset ≠ [])
+    (hlen : b.binflux.length = b.binset.length) (v : K) (hv : 0 < v) :
+    sampleBinned atol rtol b [v] = .error .interpolationNotAllowed ↔
+      ¬ |b.binset.getD (clipIdx b.binset v) 0 - v| ≤ atol + rtol * |v| := by
+  have hval : validateWavelengths [v] = .ok () := by
+    rw [validate_ok_iff]; exact ⟨by simpa using hv, Or.inl trivial⟩
+  rw [sampleBinned_spec atol rtol b hne hlen [v] hval]
+  by_cases hc : |b.binset.getD (clipIdx b.binset v) 0 - v| ≤ atol + rtol * |v|
+  · rw [if_pos (by simpa using hc)]
+    constructor
+    · intro h; cases h
+    · intro h; exact absurd hc h
+  · rw [if_neg (by simpa using hc)]
+    exact ⟨fun _ => hc, fun _ => rfl⟩
+
+/-- at the bin centres themselves binned sampling returns exactly `binflux` -/
+theorem sample_binned_at_centres (atol rtol : K) (hat : 0 ≤ atol) (hrt : 0 ≤ rtol) (b : Bins K)
+    (hne : b.binset ≠ []) (hlen : b.binflux.length = b.binset.length) (hs : StrictAsc b.binset)
+    (hpos : ∀ x ∈ b.binset, 0 < x) :
+    sampleBinned atol rtol b b.binset = .ok b.binflux := by
+  have hval : validateWavelengths b.binset = .ok () := by
+    rw [validate_ok_iff]; exact ⟨hpos, Or.inl hs⟩
+  rw [sampleBinned_spec atol rtol b hne hlen _ hval, if_pos, map_lookup_self _ hs _ hlen]
+  intro v hv
+  obtain ⟨i, hi, rfl⟩ := List.getElem_of_mem hv
+  rw [← getD_eq_getElem _ i hi, clipIdx_getD_self _ hs i hi, sub_self, abs_zero]
+  exact add_nonneg hat (mul_nonneg hrt (abs_nonneg _))
+
+/-- a set of wavelengths containing one that is not within tolerance of **any** bin centre — below the first
+centre, between two centres, or above the last one — is refused with `InterpolationNotAllowed` -/
+theorem sample_binned_refuses_noncentre (atol rtol : K) (b : Bins K) (hne : b.binset ≠ [])
+    (hlen : b.binflux.length = b.binset.length) (x : List K) (hv : validateWavelengths x = .ok ())
+    (v : K) (hvx : v ∈ x) (hfar : ∀ c ∈ b.binset, ¬ |c - v| ≤ atol + rtol * |v|) :
+    sampleBinned atol rtol b x = .error .interpolationNotAllowed := by
+  rw [sampleBinned_spec atol rtol b hne hlen x hv, if_neg]
+  intro h
+  exact hfar _ (getD_mem _ _ (clipIdx_lt _ hne v) 0) (h v hvx)
+
+/-- binned sampling of a constructed observation: the binned fluxes at the bin centres, and only there -/
+theorem constructed_sampling (E : Env K) (thr : K) (m : Tree K) (bs : List K) (useC : Bool) (b : Bins K)
+    (hv : validateWavelengths bs = .ok ()) (h : initBins E thr m bs useC = .ok b)
+    (atol rtol : K) (hat : 0 ≤ atol) (hrt : 0 ≤ rtol) :
+    sampleBinned atol rtol b b.binset = .ok b.binflux ∧
+      ∀ x, validateWavelengths x = .ok () →
+        (∃ v ∈ x, ∀ c ∈ b.binset, ¬ |c - v| ≤ atol + rtol * |v|) →
+        sampleBinned atol rtol b x = .error .interpolationNotAllowed := by
+  obtain ⟨hor, hA, he, hes, hl⟩ := constructor_orders_centres E thr m bs useC b hv h
+  have h2 := (C18.edges_ok_iff _).mp ⟨_, he⟩
+  have hne : b.binset ≠ [] := by intro h0; rw [h0] at h2; simp at h2
+  have hpos : ∀ x ∈ b.binset, 0 < x := by
+    obtain ⟨hp, _⟩ := (validate_ok_iff bs).mp hv
+    rcases hor with h1 | h1 <;> rw [h1]
+    · exact hp
+    · intro x hx; exact hp x (List.mem_reverse.mp hx)
+  refine ⟨sample_binned_at_centres atol rtol hat hrt b hne hl hA hpos, ?_⟩
+  rintro x hx ⟨v, hvx, hfar⟩
+  exact sample_binned_refuses_noncentre atol rtol b hne hl x hx v hvx hfar
+
+
+/-! ### non-vacuity of the theorems above
+
+irregular centres 1, 2, 4 (edges 1/2, 3/2, 3, 5) and their reversal; the witness observation of
+`Synphot.C07w` (flat source 2 × box on [1, 5], centres 2, 4, 8, edges 1, 3, 6, 10); fixed bins with
+fluxes 5, 6, 7 for binned sampling with NumPy's `allclose` tolerances -/
+
+section examples
+open Synphot.C07w Synphot.C10x.Witness
+
+private theorem ex_edges : binEdges ([1, 2, 4] : List ℚ) = .ok [1/2, 3/2, 3, 5] := by
+  simp [binEdges, mids]; norm_num
+private theorem ex_edges_desc : binEdges ([4, 2, 1] : List ℚ) = .ok [5, 3, 3/2, 1/2] := by
+  simp [binEdges, mids]; norm_num
+private theorem ex_valid : validateWavelengths ([1, 2, 4] : List ℚ) = .ok () := by
+  rw [validate_ok_iff]
+  refine ⟨?_, Or.inl (by norm_num [StrictAsc])⟩
+  intro x hx; simp only [List.mem_cons, List.not_mem_nil, or_false] at hx
+  rcases hx with rfl | rfl | rfl <;> norm_num
+private theorem ex_calc : calcBinEdges ([1, 2, 4] : List ℚ) = .ok [1/2, 3/2, 3, 5] :=
+  calcBinEdges_eq _ _ ex_valid ex_edges
+
+example : (3/2 : ℚ) < 2 ∧ (2 : ℚ) < 3 := by
+  simpa using centre_inside_bin ([1, 2, 4] : List ℚ) _ (by norm_num [StrictAsc]) ex_edges 1 (by simp)
+example : (3/2 : ℚ) < 2 ∧ (2 : ℚ) < 3 := by
+  simpa using centre_inside_bin_desc ([4, 2, 1] : List ℚ) _ (by norm_num [StrictDesc]) ex_edges_desc 1 (by simp)
+example := bin_geometry ([1, 2, 4] : List ℚ) _ ex_calc
+example : calcBinEdges ([4, 2, 1] : List ℚ) = .ok [5, 3, 3/2, 1/2] := by
+  have := edges_of_reversed_centres ([1, 2, 4] : List ℚ)
+  rw [ex_calc] at this
+  exact this
+
+variable (T : Transc ℚ)
+
+example : ∃ b, initBins (env T) 0 wModel ([8, 4, 2] : List ℚ) true = .ok b ∧ b.binset = [2, 4, 8] ∧
+    StrictAsc b.binset ∧ binEdges b.binset = .ok b.edges ∧ StrictAsc b.edges ∧ b.binflux.length = 3 := by
+  obtain ⟨b, h1, _, hb, _⟩ := wBins (env T)
+  have hv : validateWavelengths ([8, 4, 2] : List ℚ) = .ok () := by
+    have := validate_reverse (wBs : List ℚ); rw [wValid] at this; exact this
+  have hr := constructor_order_irrelevant (env T) 0 wModel (wBs : List ℚ) true wValid
+  have h8 : initBins (env T) 0 wModel ([8, 4, 2] : List ℚ) true = .ok b := by
+    have e : (wBs : List ℚ).reverse = [8, 4, 2] := rfl
+    rw [← e, hr, h1]
+  obtain ⟨_, hA, he, hes, hl⟩ := constructor_orders_centres (env T) 0 wModel _ true b hv h8
+  exact ⟨b, h8, hb, hA, he, hes, by rw [hl, hb]; rfl⟩
+
+example (useC : Bool) : initBins (env T) 0 wModel ([8, 4, 2] : List ℚ) useC = initBins (env T) 0 wModel [2, 4, 8] useC :=
+  constructor_order_irrelevant (env T) 0 wModel (wBs : List ℚ) useC wValid
+
+example (useC : Bool) : mkObs (env T) par (src 2) band (some ([8, 4, 2] : List ℚ)) .none useC =
+    mkObs (env T) par (src 2) band (some [2, 4, 8]) .none useC :=
+  observation_order_irrelevant (env T) par (src 2) band (wBs : List ℚ) .none useC
+
+example (useC : Bool) : ∃ o bs, mkObs (env T) par (src (2 : ℚ)) band (some wBs) .none useC = .ok o ∧
+    validateWavelengths bs = .ok () ∧ initBins (env T) par.mergeThr o.model bs useC = .ok o.bins := by
+  obtain ⟨o, ho, _⟩ := wMkObs (env T) useC
+  obtain ⟨bs, h1, _, h3⟩ := observation_bins _ _ _ _ _ _ _ o ho
+  exact ⟨o, bs, ho, h1, h3⟩
+
+/-- conservation on the witness: `Σ binflux × integrated width = ∫` on the merged grid -/
+example : ∃ b : Bins ℚ, initBins (env T) 0 wModel wBs true = .ok b ∧
+    (mulFactors b.binflux ((b.ibeg.zip b.iend).map fun p => segWidth (pairDiffs b.spwave) p.1 p.2)).sum =
+      trapzXY
+        (gridSlice b.spwave (searchLeft b.spwave (b.edges.headD 0)) (searchLeft b.spwave (b.edges.getLastD 0)))
+        (gridSlice b.flux (searchLeft b.spwave (b.edges.headD 0)) (searchLeft b.spwave (b.edges.getLastD 0))) := by
+  obtain ⟨b, h1, _⟩ := wBins (env T)
+  exact ⟨b, h1, conservation_constructed (env T) 0 wModel wBs true b wValid h1⟩
+
+/-- … with the bin widths 2, 3, 4 of the edges 1, 3, 6, 10, the integral running from edge 1 to edge 10 -/
+example : ∃ (b : Bins ℚ) (xs ys : List ℚ), initBins (env T) 0 wModel wBs true = .ok b ∧
+    (mulFactors b.binflux [2, 3, 4]).sum = trapzXY xs ys ∧ xs.head? = some 1 ∧ xs.getLast? = some 10 := by
+  obtain ⟨b, h1, _⟩ := wBins (env T)
+  obtain ⟨_, he, hg, _⟩ := wBins_edges_on_grid (env T) true b h1
+  have hbw : binWidths b.edges = .ok ([2, 3, 4] : List ℚ) := by
+    rw [he]; simp only [wEdges, binWidths, absDiffs]; norm_num
+  obtain ⟨xs, ys, _, _, h3, _, h5, h6⟩ :=
+    conservation_between_edges (env T) 0 wModel wBs true b wValid h1 hg _ hbw
+  refine ⟨b, xs, ys, h1, h3, ?_, ?_⟩
+  · rw [h5, he]; rfl
+  · rw [h6, he]; rfl
+
+example (useC : Bool) : ∃ (o : Obs ℚ) (xs ys : List ℚ),
+    mkObs (env T) par (src 2) band (some wBs) .none useC = .ok o ∧
+    (mulFactors o.bins.binflux [2, 3, 4]).sum = trapzXY xs ys ∧ xs.head? = some 1 ∧ xs.getLast? = some 10 := by
+  obtain ⟨o, ho, _, he, hg⟩ := wMkObs (env T) useC
+  have hbw : binWidths o.bins.edges = .ok ([2, 3, 4] : List ℚ) := by
+    rw [he]; simp only [wEdges, binWidths, absDiffs]; norm_num
+  obtain ⟨xs, ys, _, _, h3, _, h5, h6, _⟩ :=
+    observation_conserves_flux (env T) par (src 2) band _ .none useC o ho hg _ hbw
+  refine ⟨o, xs, ys, ho, h3, ?_, ?_⟩
+  · rw [h5, he]; rfl
+  · rw [h6, he]; rfl
+
+/-- the first binned flux of the witness lies between the smallest (0) and largest (2) unbinned value -/
+example : ∃ b : Bins ℚ, initBins (env T) 0 wModel wBs true = .ok b ∧
+    0 ≤ b.binflux.getD 0 0 ∧ b.binflux.getD 0 0 ≤ 2 := by
+  obtain ⟨b, h1, _⟩ := wBins (env T)
+  obtain ⟨hb, _, _, hf⟩ := wBins_edges_on_grid (env T) true b h1
+  obtain ⟨_, _, _, _, hl⟩ := constructor_orders_centres (env T) 0 wModel wBs true b wValid h1
+  have := binflux_between_constructed (env T) 0 wModel wBs true b wValid h1 0 (by rw [hl, hb]; simp [wBs]) 0 2
+    (fun v hv => wFluxBounds (env T) _ _ hf v (List.mem_of_mem_drop (List.mem_of_mem_take hv)))
+  exact ⟨b, h1, this.1, this.2.1⟩
+
+/-- the four-bin call of `TestCalcbinflux`-like shape: two bins of two unit segments each -/
+example : ∃ r, calcbinfluxC [0, 2] [2, 4] ([1, 2, 3, 4] : List ℚ) [1, 1, 1, 1] = .ok r ∧
+    calcbinfluxPy [0, 2] [2, 4] ([1, 2, 3, 4] : List ℚ) [1, 1, 1, 1] = .ok r ∧ r.1.length = 2 := by
+  obtain ⟨r, h1, h2, h3, _⟩ := consistent_call_identical [0, 2] [2, 4] ([1, 2, 3, 4] : List ℚ) [1, 1, 1, 1]
+    ⟨rfl, rfl, by intro d hd; simp at hd; rw [hd]; norm_num, by
+      intro p hp
+      simp only [List.zip_cons_cons, List.zip_nil_right, List.mem_cons, List.not_mem_nil, or_false] at hp
+      rcases hp with rfl | rfl <;> simp⟩
+  exact ⟨r, h1, h2, h3⟩
+
+example : ∃ b : Bins ℚ, initBins (env T) 0 wModel wBs true = .ok b ∧
+    ConsistentCall b.ibeg b.iend (pairSums b.flux) (pairDiffs b.spwave) := by
+  obtain ⟨b, h1, _⟩ := wBins (env T)
+  exact ⟨b, h1, constructor_call_consistent (env T) 0 wModel wBs true b wValid h1
+    (wBins_edges_on_grid (env T) true b h1).2.2.1⟩
+
+example : ∃ b : Bins ℚ, initBins (env T) 0 wModel wBs false = .ok b ∧ StrictAsc b.spwave ∧
+    b.flux.length = b.spwave.length := by
+  obtain ⟨b, _, h2, _⟩ := wBins (env T)
+  obtain ⟨_, _, _, _, _, _, _, h7, _, h9⟩ := constructor_indices (env T) 0 wModel wBs false b wValid h2
+  exact ⟨b, h2, h7, h9⟩
+
+example : ∃ b : Bins ℚ, initBins (env T) 0 wModel wBs false = .ok b := by
+  obtain ⟨b, h1, _⟩ := wBins (env T)
+  exact ⟨b, (constructor_impls_agree (env T) 0 wModel wBs b).mp h1⟩
+
+example : ∃ o : Obs ℚ, mkObs (env T) par (src 2) band (some wBs) .none false = .ok o := by
+  obtain ⟨o, ho, _⟩ := wMkObs (env T) true
+  exact ⟨o, (observation_impls_agree (env T) par (src 2) band _ .none o).mp ho⟩
+
+example := constructor_returns (env T) 0 wModel (wBs : List ℚ) wValid _ wWaveset (fun x _ => ⟨_, wEval (env T) x⟩) wEdges
+    (by rw [wAsc]; exact wBinEdges) (by rw [wAsc]; exact wHedge)
+
+example : ∃ b : Bins ℚ, initBins (env T) 0 wModel wBs true = .ok b ∧ StrictAsc b.spwave ∧
+    ∀ e ∈ b.edges, 0 < e → e ∈ b.spwave := by
+  obtain ⟨b, h1, _⟩ := wBins (env T)
+  obtain ⟨h2, _, _, h4⟩ := constructor_grid (env T) 0 wModel wBs true b h1
+  exact ⟨b, h1, h2, h4 (le_refl _)⟩
+/-! binned sampling: centres 2, 4, 8 with fluxes 5, 6, 7; `atol = 1e-8`, `rtol = 1e-5` -/
+
+private theorem s_ne : (sBins : Bins ℚ).binset ≠ [] := by simp [sBins]
+
+/-- at the centre 4 the flux 6 is returned -/
+example : sampleBinned (1/10^8) (1/10^5) (sBins : Bins ℚ) [4] = .ok [6] := by
+  rw [sample_binned_one_iff _ _ _ s_ne rfl 4 (by norm_num)]
+  simp only [sBins, sIdx_centre]
+  norm_num
+
+/-- between the centres 2 and 4 the wavelength 3 is refused -/
+example : sampleBinned (1/10^8) (1/10^5) (sBins : Bins ℚ) [3] = .error .interpolationNotAllowed := by
+  rw [sample_binned_refused_iff _ _ _ s_ne rfl 3 (by norm_num)]
+  simp only [sBins, sIdx_between]
+  norm_num [abs_of_pos]
+
+example : sampleBinned (1/10^8) (1/10^5) (sBins : Bins ℚ) [3] =
+    if ∀ v ∈ ([3] : List ℚ), |(sBins : Bins ℚ).binset.getD (clipIdx (sBins : Bins ℚ).binset v) 0 - v| ≤ 1/10^8 + 1/10^5 * |v|
+    then .ok (([3] : List ℚ).map fun v => (sBins : Bins ℚ).binflux.getD (clipIdx (sBins : Bins ℚ).binset v) 0)
+    else .error .interpolationNotAllowed :=
+  sample_binned_spec _ _ _ s_ne rfl [3] (by
+    rw [validate_ok_iff]; exact ⟨by intro x hx; simp at hx; rw [hx]; norm_num, Or.inl trivial⟩)
+
+example : sampleBinned (1/10^8) (1/10^5) (sBins : Bins ℚ) [2, 4, 8] = .ok [5, 6, 7] :=
+  sample_binned_at_centres _ _ (by norm_num) (by norm_num) (sBins : Bins ℚ) s_ne rfl wStrictAsc
+    ((validate_ok_iff _).mp wValid).1
+
+/-- below the first centre (1), between two centres (3), above the last one (9): all refused -/
+private theorem s_far (v : ℚ) (hv : v = 1 ∨ v = 3 ∨ v = 9) :
+    ∀ c ∈ (sBins : Bins ℚ).binset, ¬ |c - v| ≤ 1/10^8 + 1/10^5 * |v| := by
+  intro c hc
+  simp only [sBins, List.mem_cons, List.not_mem_nil, or_false] at hc
+  rcases hv with rfl | rfl | rfl <;> rcases hc with rfl | rfl | rfl <;> norm_num [abs_of_pos, abs_of_neg]
+
+private theorem s_valid1 (v : ℚ) (hv : 0 < v) : validateWavelengths [v] = .ok () := by
+  rw [validate_ok_iff]; exact ⟨by simpa using hv, Or.inl trivial⟩
+
+example : sampleBinned (1/10^8) (1/10^5) (sBins : Bins ℚ) [1] = .error .interpolationNotAllowed :=
+  sample_binned_refuses_noncentre _ _ _ s_ne rfl [1] (s_valid1 1 (by norm_num)) 1 (by simp) (s_far 1 (by simp))
+example : sampleBinned (1/10^8) (1/10^5) (sBins : Bins ℚ) [3] = .error .interpolationNotAllowed :=
+  sample_binned_refuses_noncentre _ _ _ s_ne rfl [3] (s_valid1 3 (by norm_num)) 3 (by simp) (s_far 3 (by simp))
+example : sampleBinned (1/10^8) (1/10^5) (sBins : Bins ℚ) [9] = .error .interpolationNotAllowed :=
+  sample_binned_refuses_noncentre _ _ _ s_ne rfl [9] (s_valid1 9 (by norm_num)) 9 (by simp) (s_far 9 (by simp))
+
+example : ∃ b : Bins ℚ, initBins (env T) 0 wModel wBs true = .ok b ∧
+    sampleBinned (1/10^8) (1/10^5) b b.binset = .ok b.binflux := by
+  obtain ⟨b, h1, _⟩ := wBins (env T)
+  exact ⟨b, h1, (constructed_sampling (env T) 0 wModel wBs true b wValid h1 _ _ (by norm_num) (by norm_num)).1⟩
+
+end examples
 
 end Synphot.C07
